@@ -29,6 +29,8 @@ def canon_exc(err):
 
 def exc_origin(err) -> str:
     """'<package-relative file>:<function>' of the innermost frame that raised err."""
+    if isinstance(err, RecursionError):
+        return "recursion"  # the innermost frame at the depth limit is incidental
     tb = err.__traceback__
     if tb is None:
         return "?"
